@@ -51,13 +51,18 @@ def _canon_expr(src_or_node):
     return _Canon().visit(_copy.deepcopy(node))
 
 
-def _alpha_match(key_node, test_node, renameable, mapping):
+_STD_ALIASES = {"np": "numpy", "pd": "pandas"}
+
+
+def _alpha_match(key_node, test_node, renameable, mapping, aliases=None):
     """structural equality of two expressions up to a consistent renaming of function-local variable names"""
     if type(key_node) is not type(test_node):
         return False
     if isinstance(key_node, ast.Name):
         if key_node.id == test_node.id:
             return True
+        if aliases and key_node.id in _STD_ALIASES and aliases.get(test_node.id) == _STD_ALIASES[key_node.id]:
+            return True  # the same library under another import alias
         if test_node.id in renameable:
             if key_node.id in mapping:
                 return mapping[key_node.id] == test_node.id
@@ -75,12 +80,12 @@ def _alpha_match(key_node, test_node, renameable, mapping):
                 return False
             for x, y in zip(a_, b_):
                 if isinstance(x, ast.AST):
-                    if not _alpha_match(x, y, renameable, mapping):
+                    if not _alpha_match(x, y, renameable, mapping, aliases):
                         return False
                 elif x != y:
                     return False
         elif isinstance(a_, ast.AST):
-            if not isinstance(b_, ast.AST) or not _alpha_match(a_, b_, renameable, mapping):
+            if not isinstance(b_, ast.AST) or not _alpha_match(a_, b_, renameable, mapping, aliases):
                 return False
         elif a_ != b_:
             return False
@@ -161,7 +166,7 @@ def assume_map(mapping, prog=None):
             if isinstance(knode, ast.Name) or (isinstance(knode, ast.UnaryOp) and isinstance(knode.operand, ast.Name)):
                 continue  # a bare flag: parameters are matched by exact text only
             m_ = dict(rename_cache.get(fn, {}))
-            if _alpha_match(knode, tnode, ren, m_):
+            if _alpha_match(knode, tnode, ren, m_, getattr(module, "aliases", None)):
                 rename_cache[fn] = m_
                 used.add(text)
                 return (v != (kpar != tpar)) if isinstance(v, bool) else v
